@@ -348,7 +348,7 @@ def run_atheris(spec, ctx, acc):
     except core.HarnessError as err:
         acc.errors.append(f"atheris unavailable: {err}")
         return
-    runs = int(os.environ.get("VP_FUZZ_RUNS", "200000"))
+    runs = int(os.environ.get("VP_FUZZ_RUNS", "100000"))
     stats, viols, err, ncorpus = driver.run_campaign(
         PROP, f"shard{spec['part']}", core.derive(ctx["seed"], PROP, "atheris", spec["part"]), runs,
         spec["corpus"], set(ctx["known"]))
